@@ -61,17 +61,5 @@ CONTRACT[K + 'phasePlotRegion'] = dict(
     lemmas=['count_partition(self.seq, 0, self.len)', 'npos_nonneg(self.seq, 0, self.len)', 'nneg_nonneg(self.seq, 0, self.len)',
             'nneut_nonneg(self.seq, 0, self.len)'])
 CONTRACT[K + 'phasePlotAnnotation'] = dict(
-    self=mk_sequence(), modifies=[], raises=[], returns='opaque',
-    ensures=[])
-
-# ----------------------------------------------------------------------------- C09.d: isoelectric point
-CONTRACT[K + 'isoelectric_point'] = dict(
-    self=mk_sequence(), modifies=[],
-    may_raise=[('SequenceException', 'True')],     # that the search never gives up is NOT proved (bounded check only)
-    ensures=['absv(charge_norm(self.seq, self.len, result)) <= 0.02',
-             'implies(n_titratable(self.seq, 0, self.len) == 0, result == 7.0)'])
-LOOPS[K + 'isoelectric_point'] = {0: dict(
-    types={'protein_charge': 'real', 'min_pH': 'real', 'max_pH': 'real', 'mid_pH': 'real'},
-    invariant=['And(0 <= breakcount, breakcount <= 19)', 'And(0 <= errorcount, errorcount <= 10)',
-               'implies(n_titratable(self.seq, 0, self.len) == 0, And(min_pH == 0, max_pH == 14, breakcount == 0))'],
-    variant='(10 - errorcount, 20 - breakcount)')}
+    self=mk_sequence(), modifies=[], raises=[],
+    ensures=['annotation_ok(result, region_spec(npos(self.seq, 0, self.len), nneg(self.seq, 0, self.len), self.len))'])
